@@ -35,6 +35,10 @@ pub struct Printer<'t, 'd> {
     layout: Option<&'t mut Tape<'d>>,
     /// how many layout decisions deviated from the canonical form
     pub deviations: usize,
+    /// U7: parenthesise prefix expressions in operand position and non-atomic prefix operands (default).
+    /// With `false` the text is printed "raw": it then denotes whatever the parser makes of it, which is only
+    /// used for relations between parses (context independence, layout independence), never with an expected tree.
+    pub u7: bool,
 }
 
 pub const WHITESPACE: [&str; 11] = [" ", "\t", "\n", "\u{000B}", "\u{000C}", "\r", "\u{0085}", "\u{200E}", "\u{200F}", "\u{2028}", "\u{2029}"];
@@ -62,12 +66,18 @@ pub fn float_literal(f: f64) -> String {
     s
 }
 
-fn expr_level(e: &Expr) -> u8 {
+fn expr_level(e: &Expr, u7: bool) -> u8 {
     match e {
         Expr::Infix { operator, .. } => operator.level(),
         Expr::Assign { .. } => 1,
         // U7: a prefix expression in operand position is always parenthesised
-        Expr::Prefix { .. } => 0,
+        Expr::Prefix { .. } => {
+            if u7 {
+                0
+            } else {
+                10
+            }
+        }
         _ => 10,
     }
 }
@@ -78,10 +88,10 @@ fn is_atom(e: &Expr) -> bool {
 
 impl<'t, 'd> Printer<'t, 'd> {
     pub fn canonical() -> Printer<'static, 'static> {
-        Printer { items: Vec::new(), layout: None, deviations: 0 }
+        Printer { items: Vec::new(), layout: None, deviations: 0, u7: true }
     }
     pub fn with_layout(t: &'t mut Tape<'d>) -> Printer<'t, 'd> {
-        Printer { items: Vec::new(), layout: Some(t), deviations: 0 }
+        Printer { items: Vec::new(), layout: Some(t), deviations: 0, u7: true }
     }
     fn flip(&mut self, num: u32) -> bool {
         match self.layout.as_mut() {
@@ -151,19 +161,19 @@ impl<'t, 'd> Printer<'t, 'd> {
         // does the context force parentheses?
         let need = match cx {
             Cx::Whole => false,
-            Cx::AssignRhs => expr_level(e) <= 1 && !is_atom(e) && !matches!(e, Expr::Prefix { .. }),
+            Cx::AssignRhs => expr_level(e, self.u7) <= 1 && !is_atom(e) && !matches!(e, Expr::Prefix { .. }),
             Cx::Operand(level, right) => {
-                let l = expr_level(e);
+                let l = expr_level(e, self.u7);
                 if right {
                     l <= level
                 } else {
                     l < level
                 }
             }
-            Cx::PrefixOperand => !is_atom(e),
+            Cx::PrefixOperand => self.u7 && !is_atom(e),
         };
         // function literals may never be wrapped into an infix operand; they only occur as atoms elsewhere
-        let redundant = !need && self.flip(10);
+        let redundant = !need && self.u7 && self.flip(10);
         if need || redundant {
             self.sym("(");
             self.expr_inner(e, Cx::Whole);
@@ -194,6 +204,7 @@ impl<'t, 'd> Printer<'t, 'd> {
                 if let (Expr::Identifier(a), Expr::Infix { left: l2, operator, right: r2 }) = (&**left, &**right) {
                     if matches!(&**l2, Expr::Identifier(b) if a == b)
                         && matches!(cx, Cx::Whole | Cx::AssignRhs)
+                        && self.u7
                         && self.flip(128)
                     {
                         self.word(a);
@@ -350,7 +361,7 @@ impl<'t, 'd> Printer<'t, 'd> {
             _ => {
                 self.deviations += 1;
                 // line comment; its text may contain anything but a line feed
-                const COMMENTS: [&str; 6] = ["", " opmerking", " stel x = 1; )", "// /* \"", " é€ {", "\t}"];
+                const COMMENTS: [&str; 9] = ["", " opmerking", " stel x = 1; )", "// /* \"", " é€ {", "\t}", " C:\\pad\\", "\\", " \\\\\\"];
                 let after_slash = a.map(|a| text_of(a).ends_with('/')).unwrap_or(false);
                 if needs || after_slash || !t.maybe(128) {
                     out.push(' ');
@@ -414,4 +425,20 @@ pub fn print_layout(b: &BlockStmt, t: &mut Tape) -> (String, usize) {
 /// prints one expression canonically (used by generators that build text directly)
 pub fn print_expr(e: &Expr) -> String {
     print_canonical(&vec![Stmt::Expr(e.clone())]).trim_end_matches(';').trim().to_string()
+}
+
+/// canonical text without the U7 parentheses (see `Printer::u7`)
+pub fn print_raw(b: &BlockStmt) -> String {
+    let mut p = Printer::canonical();
+    p.u7 = false;
+    p.program(b);
+    p.finish()
+}
+
+/// raw text (no U7 parentheses, no redundant parentheses) under a random layout
+pub fn print_raw_layout(b: &BlockStmt, t: &mut Tape) -> String {
+    let mut p = Printer::with_layout(t);
+    p.u7 = false;
+    p.program(b);
+    p.finish()
 }
